@@ -134,6 +134,9 @@ func (n *Node) processSyncRequest(rpc net.RPC, cmd *net.SyncRequest) {
 
 		//select min(cmd.SyncLimit, this.SyncLimit) events
 		limit := min(cmd.SyncLimit, n.conf.SyncLimit)
+		if limit < 0 {
+			limit = 0
+		}
 
 		n.logger.WithFields(logrus.Fields{
 			"req.sync_limit": cmd.SyncLimit,
